@@ -519,6 +519,131 @@ def genShared (big : Bool) : Gen Out := do
          cls := e.cls
          stratum := s!"shared/{o1.sym}{o2.sym}{o3.sym}/{resultShape e.spec}" }
 
+/-! ### computed operands whose physical column order is a non-involutive permutation
+
+`Relation.Join` returns the heading `leftOut ++ rightOut` in that physical order, so chains of joins,
+compositions and residues over projections of one small universe produce relations whose column order
+is any permutation of the sorted one (literals always get sorted headings).  Every column has its own
+value range, so a row written through a wrong permutation is a different row. -/
+
+def permPool : Names := ["a", "b", "c", "d", "e", "@"]
+
+def someOf (ns : Names) : Gen Names := do
+  let mut out := []
+  for n in ns do
+    if ← chance 1 2 then out := n :: out
+  pure out.reverse
+
+def colCode (n : String) : Nat := 10 * (permPool.findIdx (· == n) + 1)
+
+def colVal (n : String) (v : Nat) : V := .num (Int.ofNat (colCode n + v))
+
+/-- a small universe: rows over `names`; operands are projections of it, so joins find matches -/
+structure Univ where
+  names : Names
+  rows : List (List V)
+
+def Univ.proj (u : Univ) (H : Names) : List (List V) :=
+  (dedup (u.rows.map fun r => H.map fun n => (get n (u.names.zip r)).getD (.num 0))).reverse
+
+def genUniv : Gen Univ := do
+  let names ← shuffle permPool
+  let names := names.take 5
+  let m ← pick [1, 2, 2, 3]
+  let rows ← genList m (do
+    let mut out := []
+    for n in names do
+      out := colVal n (← rand 3) :: out
+    pure out.reverse)
+  pure ⟨names, rows⟩
+
+def genPermLeaf (u : Univ) (H : Names) : Gen Ex := do
+  let cols ← shuffle H
+  let extra ← chance 1 4
+  let base := u.proj cols
+  let rows ← if extra then do
+      let mut r := []
+      for n in cols do
+        r := colVal n (← rand 3) :: r
+      pure (cleanRows cols (base ++ [r.reverse]))
+    else pure base
+  pure (.leaf ⟨cols, rows, ← pick [0, 0, 1, 2, 3, 4]⟩)
+
+/-- a computed relation over the names `T` (a superset of the universe's projection onto `T`) -/
+def genTree (u : Univ) : Nat → Names → Gen Ex
+  | 0, T => genPermLeaf u T
+  | d + 1, T => do
+    if T.length ≤ 1 then genPermLeaf u T
+    else
+      let r ← rand 10
+      let others := u.names.filter fun n => !T.contains n
+      let sh ← shuffle T
+      let k ← rand (T.length - 1)
+      let T1 := sh.take (k + 1)
+      let rest := sh.drop (k + 1)
+      let wrap (e : Ex) : Gen Ex := do pure (if ← chance 1 5 then .wh e else e)
+      if r < 1 then genPermLeaf u T
+      else if r < 7 || others.isEmpty then
+        -- join of two (possibly overlapping) parts: heading `left ++ (right ∖ left)`
+        let ov ← someOf T1
+        let a ← genTree u d T1
+        let b ← genTree u d (rest ++ ov)
+        wrap (.op .join a b)
+      else if r < 9 then
+        -- composition through a link column that is dropped: heading `left∖x ++ right∖x`
+        let x := others.headD "a"
+        let a ← genTree u d (T1 ++ [x])
+        let b ← genTree u d (rest ++ [x])
+        wrap (.op .compose a b)
+      else
+        -- projection: the left residue drops a column and keeps the physical order of the rest
+        let x := others.headD "a"
+        let a ← genTree u d (T ++ [x])
+        let b ← genPermLeaf u [x]
+        wrap (.op .lres a b)
+
+def physAttrs (e : Ex) : Names :=
+  match e.model with
+  | .ok (.relation r) => r.attrs
+  | _ => []
+
+/-- the physical order is a permutation `σ` of the sorted order with `σ ∘ σ ≠ id` -/
+def nonInvolutive (attrs : Names) : Bool :=
+  let sorted := sortStrs attrs
+  let σ (i : Nat) : Nat := attrs.findIdx (· == sorted.getD i "")
+  (List.range attrs.length).any fun i => σ (σ i) != i
+
+def genCyclicTree (u : Univ) (T : Names) : Gen Ex := do
+  let mut best ← genTree u 3 T
+  for _ in [0:8] do
+    if nonInvolutive (physAttrs best) then break
+    best ← genTree u 3 T
+  pure best
+
+/-- `C op D` with three or four common attributes, `C` computed with a permuted physical column order -/
+def genPermProgram : Gen Out := do
+  let u ← genUniv
+  let k ← pick [3, 3, 4]
+  let T := (← shuffle u.names).take k
+  let c ← genCyclicTree u T
+  let others := u.names.filter fun n => !T.contains n
+  let kind ← rand 5
+  let H : Names :=
+    match kind with
+    | 0 => T                                  -- the same heading
+    | 1 => T ++ others.take 1                 -- a superset
+    | 2 => T ++ others                        -- a larger superset
+    | 3 => if k == 4 then T.take 3 else T     -- a subset with three names
+    | _ => T.take 3 ++ others.take 1          -- three common names and one of its own
+  let computed ← chance 1 2
+  let d ← if computed then genCyclicTree u H else genPermLeaf u H
+  let o ← genOp
+  let sw ← chance 1 2
+  let out := if sw then mkJoinOut o d c else mkJoinOut o c d
+  let tag := (if nonInvolutive (physAttrs c) then "cyc" else "inv") ++
+    (if computed then (if nonInvolutive (physAttrs d) then "~cyc" else "~inv") else "~lit")
+  pure { out with stratum := s!"perm/{o.sym}/{partitionOf c.spec d.spec}/{tag}" }
+
 /-! ### nest / unnest / rank programs -/
 
 def resBind (r : Res) (f : Rep → Res) : Res :=
@@ -643,11 +768,12 @@ def mkCase (id : String) (o : Out) : Case :=
     model := o.model.obsCount, spec := specObs o.spec, payload := [o.src] }
 
 def genCase (idx : Nat) (big : Bool) : Gen Case := do
-  let r ← rand 20
+  let r ← rand 23
   let o ← if r < 9 then genJoinProgram big
     else if r < 12 then genResultSugar big
     else if r < 13 then genIllTyped
     else if r < 14 then genShared big
+    else if r < 17 then genPermProgram
     else genNestProgram big
   pure (mkCase s!"C04-{idx}" o)
 
@@ -726,12 +852,68 @@ def exhaustive (maxNames maxRows : Nat) : List Case := Id.run do
               i := i + 1
   pure out.reverse
 
+/-! ## exhaustive family with permuted physical orders: for every permutation of three (and four) names a
+chain `{|n₁| …} <&> {|n₂| …} <&> …` has exactly that physical column order; it meets a literal with the same
+heading, a superset, a three-name subset, and a chain in another order, under every operator, on both sides -/
+
+def perms {α} : List α → List (List α)
+  | [] => [[]]
+  | x :: xs => (perms xs).flatMap fun p => (List.range (p.length + 1)).map fun i => p.take i ++ x :: p.drop i
+
+def chainOf (order : Names) (vals : String → List V) (rightAssoc : Bool) : Ex :=
+  let leaves : List Ex := order.map fun n => .leaf ⟨[n], (vals n).map fun v => [v], 0⟩
+  if rightAssoc then
+    match leaves.reverse with
+    | [] => .leaf ⟨[], [[]], 0⟩
+    | l :: r => r.foldl (fun acc x => .op .join x acc) l
+  else
+    match leaves with
+    | [] => .leaf ⟨[], [[]], 0⟩
+    | l :: r => r.foldl (fun acc x => .op .join acc x) l
+
+def permExhaustive (full : Bool) : List Case := Id.run do
+  let mut out : List Case := []
+  let mut i := 0
+  let ks := if full then [3, 4] else [3, 4]
+  for k in ks do
+    let names := ["a", "b", "c", "d"].take k
+    let allPerms := perms names
+    -- quick: every order of three names, the rotations of four
+    let orders := if full || k == 3 then allPerms
+      else [[ "b", "c", "d", "a"], ["c", "d", "a", "b"], ["d", "a", "b", "c"]]
+    for order in orders do
+      for variant in (if full then [0, 1] else [0]) do
+        for ra in (if full then [false, true] else [false]) do
+          let vals (n : String) : List V :=
+            if variant == 1 && n == order.headD "" then [colVal n 0, colVal n 1] else [colVal n 0]
+          let c := chainOf order vals ra
+          let row (ns : Names) (v : Nat) : List V := ns.map fun n => colVal n v
+          -- the other operand
+          let sameLit : Ex := .leaf ⟨names, [row names 0, row names 2], 0⟩
+          let superNs := names ++ ["z"]
+          let superLit : Ex := .leaf ⟨superNs, [row names 0 ++ [.num 7], row names 2 ++ [.num 8]], 0⟩
+          let subNs := names.take 3
+          let subLit : Ex := .leaf ⟨subNs, [row subNs 0, row subNs 2], 0⟩
+          let rot := order.drop 1 ++ order.take 1
+          let other := chainOf rot (fun n => [colVal n 0]) (!ra)
+          let ds : List (String × Ex) :=
+            [("same", sameLit), ("super", superLit), ("chain", other)] ++
+              (if k == 4 then [("sub", subLit)] else [])
+          for (dn, d) in (if full then ds else ds) do
+            for o in JoinOp.all do
+              for sw in [false, true] do
+                let oc := if sw then mkJoinOut o d c else mkJoinOut o c d
+                let tag := if nonInvolutive order then "cyc" else "inv"
+                out := mkCase s!"C04-p-{i}" { oc with stratum := s!"permexh/{o.sym}/k{k}/{tag}/{dn}" } :: out
+                i := i + 1
+  pure out.reverse
+
 def gen (seed n : Nat) (thorough : Bool) : List Case := Id.run do
   let mut out := corpus.reverse
   for i in [0:n] do
     let (c, _) := (genCase i thorough).run (seedOf seed (400000 + i))
     out := c :: out
   let rnd := out.reverse
-  if thorough then rnd ++ exhaustive 3 3 else rnd ++ exhaustive 2 1
+  if thorough then rnd ++ exhaustive 3 3 ++ permExhaustive true else rnd ++ exhaustive 2 1 ++ permExhaustive false
 
 end Arrai.C04
